@@ -80,6 +80,24 @@ def run_unit(prop, unit, probe=False, no_hints=False, extra_requires=None, only_
     return text, info, res
 
 
+def unit_closure(units):
+    seen, order = set(), []
+
+    def visit(u):
+        if u in seen:
+            return
+        seen.add(u)
+        path = os.path.join(VERIF, "contracts", u + ".vc")
+        for ln in open(path):
+            if ln.startswith("@use "):
+                dep = os.path.basename(ln.split()[1])[:-3]
+                visit(dep)
+        order.append(u)
+    for u in units:
+        visit(u)
+    return order
+
+
 def load_known():
     path = os.path.join(VERIF, "known_findings.txt")
     out = []
@@ -122,7 +140,9 @@ def main(argv):
     if prop not in P.PROPS:
         print("property %s is not claimed by this machinery (see MANIFEST.json not_applicable)" % prop)
         return 2
-    cfg = P.PROPS[prop]
+    cfg = dict(P.PROPS[prop])
+    # modularity rule: every unit whose contracts are imported (@use, transitively) is verified in the same run
+    cfg["units"] = unit_closure(cfg["units"])
     os.makedirs(BUILD, exist_ok=True)
     os.makedirs(REPLAYS, exist_ok=True)
     os.makedirs(EVID, exist_ok=True)
@@ -194,7 +214,8 @@ def main(argv):
                                        "rlimit": f["rlimit"], "solver_us": f["time_us"]})
         for fs in contracted:
             fns_under_contract.append({"unit": u, "function": fs.path, "has_ensures": "ensures" in fs.spec,
-                                       "external_body": fs.nobody})
+                                       "external_body": fs.nobody, "contract": " ".join(fs.spec.split())[:1500],
+                                       "hints": len(fs.hints), "loop_invariants": len(fs.loops), "r9_substitutions": len(fs.substs)})
             if fs.nobody:
                 trusted.add("assumed contract (body not verified): " + fs.path)
         for e in info["log"]:
